@@ -315,12 +315,26 @@ def resow_case(c, tmp, idx):
     rep = {"stream": "resow-after-changing-the-function", "farmer": kind_f, "sweep": sw.describe(), "n_vars": nv,
            "mode": mode, "batchsize": bs}
     bad = []
+    same_object = rng.random() < 0.4
+    rep["same_crop_object"] = same_object
     try:
-        old = farmer(shifted_fn)
-        old.Crop(name="rc", parent_dir=d, batchsize=bs).sow_combos(dict(sw.combos), verbosity=0)
-        cur = farmer(c03.labelled_fn)
-        crop = cur.Crop(name="rc", parent_dir=d, batchsize=bs)
-        crop.sow_combos(dict(sw.combos), verbosity=0)
+        if same_object:
+            # ONE Crop object: sow a first grid, look at its progress, then sow the corrected grid of the same
+            # size through the same object (other values for the first argument): the reap must be the second
+            cur = farmer(c03.labelled_fn)
+            crop = cur.Crop(name="rc", parent_dir=d, batchsize=bs)
+            a0, v0 = sw.combos[0]
+            first = dict(sw.combos)
+            first[a0] = list(reversed(v0)) if len(v0) > 1 else list(v0)
+            crop.sow_combos(first, verbosity=0)
+            _ = (crop.num_sown_batches, crop.missing_results(), str(crop))
+            crop.sow_combos(dict(sw.combos), verbosity=0)
+        else:
+            old = farmer(shifted_fn)
+            old.Crop(name="rc", parent_dir=d, batchsize=bs).sow_combos(dict(sw.combos), verbosity=0)
+            cur = farmer(c03.labelled_fn)
+            crop = cur.Crop(name="rc", parent_dir=d, batchsize=bs)
+            crop.sow_combos(dict(sw.combos), verbosity=0)
         rep["batches"] = crop.num_batches
         if mode == "fresh-process":
             out = os.path.join(d, "out.pkl")
